@@ -6,6 +6,7 @@
 //! contains no oracle of its own: it projects state and compares for equality
 //! with values TLC produced.
 mod core;
+mod lock;
 mod util;
 mod walring;
 
@@ -20,6 +21,8 @@ fn main() {
         "walring-replay" => walring::replay(rest),
         "walring-trace" => walring::trace(rest),
         "core-run" => core::run(rest),
+        "lock-run" => lock::run(rest),
+        "lock-probe" => lock::probe_cmd(rest),
         other => {
             eprintln!("unknown subcommand {other}");
             2
